@@ -92,6 +92,8 @@ fn judged(f: &Finding) -> bool {
         || s.starts_with("emitted/")
         || s.starts_with("eof/")
         || s.starts_with("ack/acknowledges-data-never-received")
+        || s.starts_with("ack/acknowledged-data-lost-to-a-reader-error")
+        || s.starts_with("ack/acknowledged-data-not-readable")
         || s.starts_with("ack/moved-backwards")
 }
 
